@@ -30,7 +30,7 @@ class V(list):
 # ====================================================================== planning helpers
 
 PASSES = ["expand_macros", "expand_macros_preserve", "fill_in_let", "fill_in_let_O", "expand_subcircuits", "expand_subcircuits_caller", "fill_in_map", "unit_timing"]
-ANALYSES = ["generate", "used_qubits", "run", "output", "resolve", "repr", "eq", "used_qubits_scribble", "run_scribble"]
+ANALYSES = ["generate", "used_qubits", "used_qubits_in_context", "run", "output", "resolve", "repr", "eq", "used_qubits_scribble", "run_scribble"]
 FLIP_PALETTE = ["$", "@", "'", '"', "\\", "\t", "\r", "\0", "é", "/*", "*/", "//", "[", "]", "{", "}", "<", ">", "|", ";", ":", "0", "-", "a", ".", " ", "\n", "~", "#", "`"]
 
 
@@ -353,6 +353,25 @@ class Session:
                 return out
 
             return job
+        if name == "used_qubits_in_context":
+            # the documented way to inspect an instruction inside a macro call: the call's
+            # parameters are the context
+
+            def job_ctx():
+                from jaqalpaq.core.macro import Macro
+
+                out = []
+                for g in extract.iter_gates(c):
+                    if isinstance(g.gate_def, Macro):
+                        for st_ in g.gate_def.body.statements:
+                            try:
+                                r = get_used_qubit_indices(st_, context=g.parameters)
+                                out.append((g.name, {k: sorted(v) for k, v in r.items()}))
+                            except Exception as e_:
+                                out.append((g.name, type(e_).__name__))
+                return out
+
+            return job_ctx
         if name == "used_qubits_scribble":
             # scribble over what the analysis returned, then ask again: the answer must not
             # have been a view of anything the library keeps
@@ -857,6 +876,15 @@ def plan_c16(run_seed):
             if ints:
                 (t.choice(pref) if pref and t.chance(0.85) else t.choice(ints))[1] = t.choice([0, 0, -1, -2])
                 e["exec"] = False
+        if t.chance(0.15) and e["prog"]["macros"]:
+            # a macro called with an argument of another kind than its body needs
+            names = {m["name"] for m in e["prog"]["macros"]}
+            calls = [x for x in progast.all_statements(e["prog"]) if x["k"] == "gate" and x["name"] in names and x["args"]]
+            if calls:
+                c_ = t.choice(calls)
+                rn = e["prog"]["reg"][0] if e["prog"].get("reg") else "q"
+                c_["args"][t.randrange(len(c_["args"]))] = t.choice([["num", 1.5], ["num", 2.0], ["num", 1], ["id", rn], ["item", rn, 0], ["num", -1]])
+                e["exec"] = False
         if t.chance(0.12):
             # unusual but lexically legal: a negative loop or subcircuit count
             loops = [x for x in progast.all_statements(e["prog"]) if x["k"] in ("loop", "sub")]
@@ -918,6 +946,8 @@ def plan_c16(run_seed):
             other = t.randrange(len(texts))
             op["nested_pulse_top"] = {"op": "parse", "text": other, "kw": {}, "via": "string", "bad_seed": t.randrange(1 << 30) if t.chance(0.6) else None}
         ops.append(op)
+    if t.chance(0.07):
+        ops.insert(t.randrange(len(ops) + 1), {"op": "probe_unterminated", "text": t.randrange(len(texts)), "seed": t.randrange(1 << 30), "length": t.choice([30, 60, 120, 400])})
     return {"engine": "E1", "prop": "C16", "run_seed": run_seed, "texts": texts, "ops": ops, "tapes": None}
 
 
@@ -1062,10 +1092,11 @@ def absolute_import_of_relative_module(S, text):
     import re
 
     rel_ok = {e["pulses"]["mod"] for e in S.plan["texts"] if e.get("pulses") and e["pulses"]["relative"] and e["pulses"]["kind"] in ("good", "package")}
+    out = []
     for m in re.finditer(r"from\s+([A-Za-z_][A-Za-z0-9_.]*)\s+usepulses", text):
         if m.group(1).split(".")[0] in rel_ok:
-            return True
-    return False
+            out.append(m.group(1).split(".")[0])
+    return out
 
 
 def materialise_c16(plan):
@@ -1130,6 +1161,42 @@ def nested_parse(S, inner, j):
     S.fault("nested-call")
 
 
+def c_level_probe(S, op, j):
+    """The step clock cannot see a loop inside C code (a regular expression that backtracks
+    for ever on an unterminated comment, say).  This probe hands such a text to the parser
+    in a forked child under a wall-clock guard that is four orders of magnitude above the
+    normal cost; only a child that never answers is a verdict."""
+    from jaqalpaq.parser import parse_jaqal_string
+    from .runner import fork_call, HarnessError
+
+    base = S.text(op["text"])
+    t = Tape(op["seed"])
+    at = t.randrange(len(base) + 1)
+    tail = "".join(t.choice("ab c*x/\n;{}<>|[]0123456789") for _ in range(op["length"]))
+    tail = tail.replace("*/", "* /")
+    text = base[:at] + "/*" + tail + (base[at:].replace("*/", "* /") if t.chance(0.5) else "")
+    kw = S.parse_kwargs(op["text"], {})
+    kw.pop("import_path", None)
+    kw["autoload_pulses"] = False
+
+    def job():
+        try:
+            parse_jaqal_string(text, **{k: v for k, v in kw.items() if k != "inject_pulses"})
+            return "ok"
+        except BaseException as e:
+            return type(e).__name__
+
+    S.fault("text:unterminated-comment-probe")
+    try:
+        out = fork_call(job, wall_s=10.0)
+        S.log.append((j, "probe", out))
+        if out not in ("ok", "JaqalParseError", "JaqalError"):
+            S.viol.add("C16", "only_jaqal_errors_escape", "exc:" + out, "probe", "unterminated comment of %d characters" % op["length"], op=j)
+    except HarnessError:
+        S.viol.add("C16", "terminates", "nonterm-in-C", "wall-clock guard", "a text with an unterminated block comment of %d characters did not come back within 10 s (normal cost: milliseconds)" % op["length"], op=j)
+        S.viol[-1]["sweep_text"] = text
+
+
 def exec_c16(plan, role="main", order=None):
     st = Streams(plan["run_seed"], recorded=plan.get("tapes"))
     plan2 = dict(plan)
@@ -1137,6 +1204,7 @@ def exec_c16(plan, role="main", order=None):
     plan2["ops_materialised"] = ops
     S = Session(plan2, st, role)
     S.twin_ref = {}
+    S.rel_loaded = set()
     hist = []
     try:
         if plan.get("sweep"):
@@ -1158,6 +1226,11 @@ def exec_c16(plan, role="main", order=None):
                 continue
             if role == "twin" and (op.get("interrupt") is not None):
                 pass  # the twin performs the clean call only
+            if op.get("op") == "probe_unterminated":
+                if role == "main":
+                    c_level_probe(S, op, j)
+                hist.append(("probe",))
+                continue
             try:
                 text = S.text(op["text"])
             except BaseException as e:
@@ -1210,9 +1283,19 @@ def exec_c16(plan, role="main", order=None):
             check_type(S, j, op, o, text, allowed)
             d = S.outcome_digest(o)
             S.twin_ref[str(j)] = list(d)
-            if absolute_import_of_relative_module(S, text):
-                S.twin_waived = getattr(S, "twin_waived", []) + [str(j)]
-                S.probe("twin_waived_successful_relative_import_populates_sys_modules")
+            mods = absolute_import_of_relative_module(S, text)
+            if mods:
+                # had a successful relative import of that module already happened in this
+                # lifetime?  (only then may the absolute import legitimately see it)
+                flag = bool(set(mods) & S.rel_loaded)
+                S.twin_waived = dict(getattr(S, "twin_waived", {}))
+                S.twin_waived[str(j)] = flag
+                S.probe("absolute_import_of_relatively_imported_module")
+            if o["kind"] == "ok":
+                for e3 in [plan2["texts"][op["text"]]]:
+                    pm3 = e3.get("pulses")
+                    if pm3 and pm3["relative"] and pm3["kind"] in ("good", "package") and ("from ." + pm3["mod"]) in text:
+                        S.rel_loaded.add(pm3["mod"])
             S.log.append((j, op.get("via"), d))
             hist.append((op.get("via"), o["kind"], (op.get("fault") or {}).get("kind", ""), bool(op.get("nested")), bool(op.get("nested_pulse_top"))))
             e = plan2["texts"][op["text"]]
@@ -1224,7 +1307,7 @@ def exec_c16(plan, role="main", order=None):
                 S.probe("failed_call")
         rec = finish(S, plan, st, hist)
         rec["twin_ref"] = S.twin_ref
-        rec["twin_waived"] = getattr(S, "twin_waived", [])
+        rec["twin_waived"] = getattr(S, "twin_waived", {})
         rec["ops_materialised"] = [{k: v for k, v in op.items()} for op in ops]
     finally:
         S.close()
@@ -1277,7 +1360,7 @@ def twin_many(plans):
             out.append(None)
             continue
         rec = exec_c16(plan, role="twin", order="reversed")
-        out.append({"twin_ref": rec["twin_ref"], "violations": rec["violations"]})
+        out.append({"twin_ref": rec["twin_ref"], "twin_waived": rec.get("twin_waived") or {}, "violations": rec["violations"]})
     return out
 
 
@@ -1285,9 +1368,11 @@ def compare_twin(rec, twin):
     if not twin or rec.get("twin_ref") is None:
         return
     a, b = rec["twin_ref"], twin["twin_ref"]
-    waived = set(rec.get("twin_waived") or [])
+    wm, wt = rec.get("twin_waived") or {}, twin.get("twin_waived") or {}
     for j in sorted(a, key=int):
-        if j in waived:
+        if j in wm and j in wt and wm[j] != wt[j]:
+            # in exactly one lifetime a successful relative import of the module preceded
+            # this absolute import: the difference is what Python imports do
             continue
         if j in b and a[j] != b[j]:
             rec.setdefault("violations", []).append(
